@@ -454,7 +454,28 @@ RunT(s, m, f) ==
       t1 == IF t0.pc = "call" THEN LedgerCall(t0, FaultAt(f, 1)) ELSE t0
       t2 == IF t1.pc = "call" THEN LedgerCall(t1, FaultAt(f, 2)) ELSE t1
   IN  t2
-Run(s, m, f) == LET t == RunT(s, m, f) IN [out |-> Out(t), post |-> Commit(s, t)]
+
+(* A transaction may carry several messages: [type |-> "Batch", msgs |-> <<m1, ..., mk>>].  They run in order  *)
+(* on ONE branch of the store; the first failure fails the whole transaction and everything is discarded.      *)
+RECURSIVE BatchFold(_, _, _, _)
+BatchFold(cur, ms, f, acc) ==
+  IF ms = <<>> THEN [ok |-> TRUE, st |-> cur, acc |-> acc]
+  ELSE LET t    == RunT(cur, Head(ms), f)
+           acc2 == [calls |-> acc.calls \o t.calls, faults |-> acc.faults \o t.faults,
+                    evs |-> acc.evs \o (IF t.res = "ok" THEN t.evs ELSE <<>>),
+                    outs |-> Append(acc.outs, Out(t))]
+       IN  IF t.res # "ok" THEN [ok |-> FALSE, st |-> cur, acc |-> acc2]
+           ELSE BatchFold(t.wk, Tail(ms), SubSeq(f, Len(t.calls) + 1, Len(f)), acc2)
+
+RunBatch(s, m, f) ==
+  LET b == BatchFold(s, m.msgs, f, [calls |-> <<>>, faults |-> <<>>, evs |-> <<>>, outs |-> <<>>]) IN
+  [out  |-> [msg |-> m, faults |-> b.acc.faults, res |-> IF b.ok THEN "ok" ELSE "err", resp |-> NoResp,
+             calls |-> b.acc.calls, evs |-> IF b.ok THEN b.acc.evs ELSE <<>>, inner |-> b.acc.outs],
+   post |-> IF b.ok THEN b.st ELSE s]
+
+Run(s, m, f) ==
+  IF m.type = "Batch" THEN LET r == RunBatch(s, m, f) IN [out |-> r.out, post |-> r.post]
+  ELSE LET t == RunT(s, m, f) IN [out |-> Out(t), post |-> Commit(s, t)]
 
 ---------------------------------------------------------------------------
 (* History variable.                                                        *)
@@ -471,7 +492,7 @@ SumAmt(calls, fn) ==
   ELSE LET RECURSIVE S(_) S(I) == IF I = {} THEN 0 ELSE LET i == CHOOSE i \in I : TRUE IN calls[i].amt + S(I \ {i})
        IN S(idx)
 
-HistExtend(h, o) ==
+HistExtend1(h, o) ==
   LET m     == o.msg
       fresh == m.type \in {"SendMessage", "SendMessageWithCaller", "DepositForBurn", "DepositForBurnWithCaller"}
       sent  == SentOf(o)
@@ -488,6 +509,16 @@ HistExtend(h, o) ==
   IN  IF o.res = "ok"
       THEN [h3 EXCEPT !.minted = @ + SumAmt(o.calls, "Mint"), !.burned = @ + SumAmt(o.calls, "Burn")]
       ELSE h3
+
+\* a batch that succeeded extends the history by each of its messages; one that failed only counts as a step
+\* (inner outputs are re-derived from the observed events: each inner message contributes its MessageSent /
+\* ledger calls in order, which is all the history predicates read)
+RECURSIVE HistFoldOuts(_, _)
+HistFoldOuts(h, outs) == IF outs = <<>> THEN h ELSE HistFoldOuts([HistExtend1(h, Head(outs)) EXCEPT !.steps = h.steps], Tail(outs))
+HistExtend(h, o) ==
+  IF o.msg.type # "Batch" THEN HistExtend1(h, o)
+  ELSE IF o.res # "ok" THEN [h EXCEPT !.steps = @ + 1]
+  ELSE [HistFoldOuts(h, o.inner) EXCEPT !.steps = h.steps + 1]
 
 ---------------------------------------------------------------------------
 (* Stepwise actions.                                                        *)
